@@ -30,12 +30,14 @@ Inductive tid := TC (i : nat) | TTx | TRx | TUser.
 
 Inductive outcome := OReply (m : msg) | OError (m : msg) | OTimeout | OConnErr.
 
-Inductive cpc := CPut | CWait | CDone (o : outcome).
+Inductive cpc := CPut | CSetOwn | CWait | CDone (o : outcome).
 (* program counter inside disconnect(); the label of the synchronisation point the thread is parked at *)
-Inductive dpc := DShutSet | DQEmpty | DQDrop | DMark | DJoinT | DJoinR | DRelA (e : eid) | DPDrain | DRelP (e : eid)
-               | DFin | DExc.
+Inductive dpc := DShutSet | DQDrop | DQSet (e : eid) | DMark | DJoinT | DJoinR | DRelA (e : eid) | DPDrain
+               | DRelP (e : eid) | DFin
+               | DExc.   (* an exception left disconnect(); no step of the repaired code produces it *)
 Inductive tpc := TStart | TGet | TPark (e : eid) | TSend (e : eid) | TDisc (d : dpc) | TDead.
-Inductive rpc := RStart | RRecv | RSet (e : eid) | REmpty | RPGet | RReq (e : eid) | RDisc (d : dpc).
+Inductive rpc := RStart | RTopEmpty | RTopGet | RTopReq (e : eid) | RRecv | RSet (e : eid) | REmpty | RPGet | RReq (e : eid)
+               | RDisc (d : dpc).
 Inductive upc := UStart | UDisc (d : dpc).
 
 Record state := {
@@ -198,7 +200,7 @@ Definition rel_begin (s : state) : state * dpc :=
 Definition after_tx (s : state) : state * dpc :=
   if rxset s then (s, DJoinR) else rel_begin s.
 Definition post_drain (s : state) : state * dpc :=
-  (* if self.io: self.io.shutdown();  if self._txthread: self.txq.put(None) ... *)
+  (* if self.io: self.io.shutdown();  txthread = self._txthread; if txthread: self.txq.put(None) ... *)
   let s1 := if io_set s then set_closed_local s true else s in
   if txset s1 then (s1, DMark) else after_tx s1.
 
@@ -207,14 +209,14 @@ Definition d_enabled (s : state) (d : dpc) : bool :=
 
 Definition dstep (s : state) (d : dpc) : state * dpc :=
   match d with
-  | DShutSet => (s, DQEmpty)                          (* self._shutdown.set(); _set_state; time *)
-  | DQEmpty => match txq s with [] => post_drain s | _ => (s, DQDrop) end
-  | DQDrop => match txq s with
-              | [] => post_drain s                    (* queue.Empty swallowed by the try *)
-              | _ :: r => (set_txq s r, DQEmpty)
+  | DShutSet => (s, DQDrop)                           (* self._shutdown.set(); _set_state; time *)
+  | DQDrop => match txq s with                        (* while True: entry = self.txq.get(False) *)
+              | [] => post_drain s                    (* queue.Empty ends the loop *)
+              | None :: r => (set_txq s r, DQDrop)
+              | Some e :: r => (set_txq s r, DQSet e) (* if entry is not None: entry[1].set() *)
               end
-  | DMark => let s1 := set_txq s (txq s ++ [None]) in
-             if txset s1 then (s1, DJoinT) else (s1, DExc)     (* None.join -> AttributeError *)
+  | DQSet e => (set_ev s e, DQDrop)
+  | DMark => (set_txq s (txq s ++ [None]), DJoinT)    (* the handle was read into a local before the put *)
   | DJoinT => if tx_fin s then after_tx (set_txset s false) else (s, d)
   | DJoinR => if rx_fin s then rel_begin (set_rxset s false) else (s, d)
   | DRelA e => rel_loop_in (set_ev s e)
@@ -229,7 +231,7 @@ Definition dstep (s : state) (d : dpc) : state * dpc :=
 (* ---------------------------------------------------------------- tx thread *)
 Definition tx_exit (s : state) : state :=
   (* self._txthread = None; self.disconnect(False): self._running = False ... parks at txq.empty() *)
-  set_tx (set_running (set_txset s false) false) (TDisc DQEmpty).
+  set_tx (set_running (set_txset s false) false) (TDisc DQDrop).
 Definition tx_loop_top (s : state) : state :=
   if running s then set_tx s TGet else tx_exit s.
 
@@ -258,20 +260,25 @@ Definition tx_step (s : state) : state :=
 (* ---------------------------------------------------------------- rx thread *)
 Definition rx_finally (s : state) (sd : bool) : state :=
   (* self._rxthread = None; self.disconnect(shutdown) *)
-  set_rx (set_running (set_rxset s false) false) (RDisc (if sd then DShutSet else DQEmpty)).
+  set_rx (set_running (set_rxset s false) false) (RDisc (if sd then DShutSet else DQDrop)).
 
 Definition do_cleanup (s : state) : state :=
   set_cleanup (set_active s (fold_left (fun a e => dremove_val e a) (rev (cleanup s)) (active s))) [].
 
+(* top of the loop: `while self._running:` cleanup handling, then the parked requests are re-queued
+   (`while not self.pending.empty(): self.txq.put(self.pending.get())`), then self.io.readline() *)
 Definition rx_loop_top (s : state) : state :=
-  if running s then
-    let s1 := do_cleanup s in
-    if io_set s1 then set_rx s1 RRecv else rx_finally s1 true
-  else rx_finally s false.
+  if running s then set_rx (do_cleanup s) RTopEmpty else rx_finally s false.
 
 Definition rx_step (s : state) (a : arg) : state :=
   match rx s with
   | RStart => rx_loop_top s
+  | RTopEmpty => match pending s with
+                 | [] => if io_set s then set_rx s RRecv else rx_finally s true
+                 | _ => set_rx s RTopGet
+                 end
+  | RTopGet => match pending s with [] => s | e :: r => set_rx (set_pending s r) (RTopReq e) end
+  | RTopReq e => set_rx (set_txq s (txq s ++ [Some e])) RTopEmpty
   | RRecv =>
       if closed_local s then rx_finally s false
       else match a with
@@ -307,7 +314,9 @@ Definition finish (s : state) (i : nat) (o : outcome) : state :=
 
 Definition caller_step (s : state) (i : nat) (a : arg) : state :=
   match nth_error (cs s) i with
-  | Some CPut => set_cs (set_txq s (txq s ++ [Some i])) (set_nth i CWait (cs s))
+  | Some CPut =>      (* self.txq.put(entry); if not self._running: entry[1].set() *)
+      set_cs (set_txq s (txq s ++ [Some i])) (set_nth i (if running s then CWait else CSetOwn) (cs s))
+  | Some CSetOwn => set_cs (set_ev s i) (set_nth i CWait (cs s))
   | Some CWait =>
       if memb i (evset s) then
         match rassoc i (replies s) with
@@ -345,7 +354,7 @@ Inductive label := LStart | LPutTxq | LGetTxq | LEmptyTxq | LPutPending | LGetPe
 
 Definition d_label (d : dpc) : label :=
   match d with
-  | DShutSet => LSetShutdown | DQEmpty => LEmptyTxq | DQDrop => LGetTxq | DMark => LPutTxq
+  | DShutSet => LSetShutdown | DQDrop => LGetTxq | DQSet e => LSetEv e | DMark => LPutTxq
   | DJoinT => LJoinTx | DJoinR => LJoinRx | DRelA e => LSetEv e | DPDrain => LGetPending
   | DRelP e => LSetEv e | DFin | DExc => LNone
   end.
@@ -353,27 +362,27 @@ Definition d_label (d : dpc) : label :=
 Definition label_of (s : state) (t : tid) : label :=
   match t with
   | TC i => match nth_error (cs s) i with
-            | Some CPut => LPutTxq | Some CWait => LWaitEv i | _ => LNone end
+            | Some CPut => LPutTxq | Some CSetOwn => LSetEv i | Some CWait => LWaitEv i | _ => LNone end
   | TTx => match tx s with
            | TStart => LStart | TGet => LGetTxq | TPark _ => LPutPending | TSend _ => LSend
            | TDisc d => d_label d | TDead => LNone end
   | TRx => match rx s with
-           | RStart => LStart | RRecv => LRecv | RSet e => LSetEv e | REmpty => LEmptyPending
-           | RPGet => LGetPending | RReq _ => LPutTxq | RDisc d => d_label d end
+           | RStart => LStart | RRecv => LRecv | RSet e => LSetEv e | REmpty | RTopEmpty => LEmptyPending
+           | RPGet | RTopGet => LGetPending | RReq _ | RTopReq _ => LPutTxq | RDisc d => d_label d end
   | TUser => match us s with UStart => LStart | UDisc d => d_label d end
   end.
 
 Definition enabled (s : state) (t : tid) (a : arg) : bool :=
   match t with
   | TC i => match nth_error (cs s) i with
-            | Some CPut => true
+            | Some CPut | Some CSetOwn => true
             | Some CWait => memb i (evset s) || match a with ATimeout => true | _ => false end
             | _ => false end
   | TTx => match tx s with
            | TGet => match txq s with [] => false | _ => true end
            | TDisc d => d_enabled s d | TDead => false | _ => true end
   | TRx => match rx s with
-           | RPGet => match pending s with [] => false | _ => true end
+           | RPGet | RTopGet => match pending s with [] => false | _ => true end
            | RDisc d => d_enabled s d | _ => true end
   | TUser => match us s with UStart => true | UDisc d => d_enabled s d end
   end.
